@@ -43,11 +43,22 @@ theorem not_unknown_of_ptr {n : Nat} (h : 192 ≤ n) : is_unknown n = false := b
 theorem link_in_packet {l len : Nat} (h : l < len) : link_beyond l len = false := by simp [link_beyond]; omega
 theorem link_not_self {l off : Nat} (h : l < off) : link_self l off = false := by simp [link_self]; omega
 
-/-- the 14-bit pointer target, for a pointer byte `192 ≤ b0 ≤ 255` -/
-theorem link_eq {b0 b1 : Nat} (h1 : 192 ≤ b0) (h2 : b0 < 256) : link b0 b1 = (b0 - 192) * 256 + b1 := by
+/-- the 14-bit pointer target: for **every** pointer byte `0xC0 ≤ b0 ≤ 0xFF` and every low byte
+`b1 < 256` the link is `(b0 & 0x3F) * 256 + b1` — all six payload bits of the first byte count, so
+targets up to `0x3FFF` (in particular those beyond 4095 and 8191, which only occur in datagrams
+longer than that) are pinned.  Proved by evaluating the translated leaf on all 64 × 256 byte pairs,
+so any rewrite of the Python expression with the same values still builds and any other does not. -/
+theorem link_eq {b0 b1 : Nat} (h1 : 192 ≤ b0) (h2 : b0 < 256) (h3 : b1 < 256) :
+    link b0 b1 = (b0 - 192) * 256 + b1 := by
+  have h : ∀ b0, b0 < 256 → 192 ≤ b0 → ∀ b1, b1 < 256 → link b0 b1 = (b0 - 192) * 256 + b1 := by decide +kernel
+  exact h b0 h2 h1 b1 h3
+
+/-- the same, as the mask the RFC describes -/
+theorem link_mask {b0 b1 : Nat} (h1 : 192 ≤ b0) (h2 : b0 < 256) (h3 : b1 < 256) :
+    link b0 b1 = (b0 &&& 0x3F) * 256 + b1 := by
+  rw [link_eq h1 h2 h3]
   have : b0 &&& 63 = b0 % 64 := Nat.and_two_pow_sub_one_eq_mod b0 6
-  simp only [link, this]
-  omega
+  rw [this]; omega
 
 theorem name_short {n : Nat} (h : name_too_long n = false) : n ≤ 253 := by
   simp [name_too_long] at h; omega
